@@ -197,29 +197,43 @@ def barOf (books : Array (List Instr)) (j : Json) : Except String Bar := do
   let ops ← (← jArr j "ops").toList.mapM opOf
   pure { now := now, flagOpen := fo, book := book, price := price, priceDec := priceDec, ops := ops }
 
+/-- the optional hook lists of a bar: `opsAfter` (after_bar), `opsNotify` (Strategy.notify) -/
+def opsOpt (j : Json) (k : String) : Except String (List Op) :=
+  match jOpt j k with
+  | some (.arr a) => a.toList.mapM opOf
+  | _ => pure []
+
 def barsH : JHandler := fun j => do
   let s ← stateOf (← jObj j "state")
   let books ← (← jArr j "books").mapM (fun b => match b with
     | .arr a => a.toList.mapM instrOf
     | _ => throw "books entry")
-  let bars ← (← jArr j "bars").toList.mapM (barOf books)
+  let bars ← (← jArr j "bars").toList.mapM (fun bj => do
+    let b ← barOf books bj
+    let a ← opsOpt bj "opsAfter"
+    let n ← opsOpt bj "opsNotify"
+    pure (b, a, n))
   let cx := dctxOf j
   let c := cfgOf j
-  -- per bar: outcomes of the ops, state after update (without the book), appended actions, reported balance
-  let rec go (s : DState) (bs : List Bar) (acc : Array Json) : Array Json :=
+  -- per bar: outcomes of the ops (all hooks, in execution order; balance reads with their value), state at the end of the bar
+  -- (without the book), appended actions, balance reported in the account row
+  let rec go (s : DState) (bs : List (Bar × List Op × List Op)) (acc : Array Json) : Array Json :=
     match bs with
     | [] => acc
-    | b :: bs =>
-      let r := runBar cx c s b
+    | (b, a, n) :: bs =>
+      let r := runBarX cx c s b a n
       let item := Json.mkObj [("outcomes", .arr (r.outcomes.map (fun o => match o with
                       | .ok _ => Json.str "ok"
                       | .error e => Json.str e.cls)).toArray),
+                    ("results", .arr (r.outcomes.map (fun o => match o with
+                      | .ok (.balance bal) => optBalJ bal
+                      | _ => Json.null)).toArray),
                     ("state", stateJ { r.state with book := [] }), ("actions", .arr (r.state.actions.map actionJ).toArray),
                     ("balance", optBalJ r.balance)]
       go { r.state with actions := [] } bs (acc.push item)
   let s0 := match bars with
     | [] => s
-    | b :: _ => runInit cx c s b
+    | (b, _, _) :: _ => runInit cx c s b
   pure (Json.mkObj [("bars", .arr (go s0 bars #[]))])
 
 /-- `round_decimal`, `repr` helpers exposed for direct differential tests -/
